@@ -603,7 +603,7 @@ def behaviours_simulated(ctx, wpath, world_ids, max_len, num, tag):
 
 
 # --------------------------------------------------------------------------- validation
-def validate_behaviours(ctx, W, wpath, results, batch=4000):
+def validate_behaviours(ctx, W, wpath, results, batch=6000):
     """TLC judges every recorded step; tabulate per step (a step = one method call on real objects)."""
     import sys
     verdicts = []
@@ -717,9 +717,12 @@ def run(ctx: Ctx):
     # (a) exhaustive: every single call in every world; every pair of calls in the small world(s)
     r1, ex1 = behaviours_exhaustive(ctx, wpath, all_ids, 1, "len1")
     behs += ex1
-    r2, ex2 = behaviours_exhaustive(ctx, wpath, all_ids if thorough else [1], 2, "len2")
+    # (thorough: additionally one full-menu world, chosen by the seed)
+    len2_ids = [1] + ([2 + ctx.seed % (len(W) - 1)] if thorough else [])
+    r2, ex2 = behaviours_exhaustive(ctx, wpath, len2_ids, 2, "len2")
     behs += ex2
-    ctx.notes["exhaustive"] = {"len1_behaviours": len(ex1), "len2_behaviours": len(ex2), "len2_worlds": "all" if thorough else "small"}
+    ctx.notes["exhaustive"] = {"len1_behaviours": len(ex1), "len2_behaviours": len(ex2),
+                               "len2_worlds": [W[k - 1]["name"] for k in len2_ids]}
     # (b) simulated longer behaviours
     nsim = 6000 if thorough else 500
     sim = behaviours_simulated(ctx, wpath, all_ids, 4, nsim, "len4")
@@ -747,7 +750,7 @@ def run(ctx: Ctx):
         ctx.sample({"world": W[results[k]["w"] - 1]["name"], "behaviour": results[k]["in"]["events"],
                     "recorded": results[k]["events"][1:]})
     ctx.exhaustive = (f"every single call of the menu in each of the {len(W)} worlds, every pair of calls in "
-                      f"{'every world' if thorough else 'the small world'} (TLC exhaustive, every dumped behaviour executed); "
+                      f"{' and '.join(W[k - 1]['name'] for k in len2_ids)} (TLC exhaustive, every dumped behaviour executed); "
                       "behaviours of 3 and 4 calls by simulation")
     ctx.trusted_base = ["TLC 1.8 evaluation of spec/Gary.tla", "projection of live objects to integer tables (x02.project/enc_cell)",
                         "construction of the initial objects from their declared state (checked by the init observation)",
